@@ -138,8 +138,8 @@ def lsm_mc_layer(cfgname, label):
 
 
 def layers_for(prop):
-    if prop == 'C01': return [struct_layer, lsm_mc_layer('Lsm_quick', 'Lsm_MC')]
-    if prop == 'C06': return [struct_layer, lsm_mc_layer('Lsm_quick', 'Lsm_MC')]
+    if prop == 'C01': return [struct_layer, gen_layer, lsm_mc_layer('Lsm_quick', 'Lsm_MC')]
+    if prop == 'C06': return [struct_layer, gen_layer, lsm_mc_layer('Lsm_quick', 'Lsm_MC')]
     return []
 
 
@@ -148,6 +148,7 @@ def run_struct_prop(prop, tier, seed, mc_cfg):
     out = Outcome(prop)
     mc = {}
     struct_layer(prop, tier, seed, out, mc)
+    gen_layer(prop, tier, seed, out, mc)
     lsm_mc_layer(mc_cfg, 'Lsm_MC')(prop, tier, seed, out, mc)
     st = mc.get('LsmTrace', {})
     cov = dict(states=st.get('states', 0) + mc.get('Lsm_MC', {}).get('states', 0),
@@ -165,3 +166,128 @@ CHECKS = {
     'C13': lambda tier, seed: run_struct_prop('C13', tier, seed, 'Lsm_files'),
     'C14': lambda tier, seed: run_struct_prop('C14', tier, seed, 'Lsm_quick'),
 }
+
+
+# =============================================================================================
+# GEN: behaviours generated by TLC from LsmGen.tla, replayed into the real library
+# =============================================================================================
+GEN_KEYMAP = lambda k: -1 if k < 0 else min(15, 3 * k)
+
+
+def gen_scripts(seed, per_worker, workers, max_ops, pick_per_tag, timeout):
+    d = c.scratch('gen')
+    outdir = os.path.join(d, 'out'); os.makedirs(outdir)
+    cfg = open(os.path.join(c.SPEC, 'LsmGen.cfg')).read()
+    cfg = cfg.replace('OutDir = "/tmp/lsmgen_out"', 'OutDir = "%s"' % outdir).replace('MaxOps = 14', 'MaxOps = %d' % max_ops)
+    cfgp = os.path.join(d, 'gen.cfg'); open(cfgp, 'w').write(cfg)
+    r = c.tlc('LsmGen', cfgp, workers=workers, timeout=timeout, simulate=per_worker, depth=max_ops + 1, heap='6g', deadlock=False, seed=seed)
+    if r.violated:
+        return None, r, d
+    if r.error and 'Simulation' not in r.out and not os.listdir(outdir):
+        raise Broken('LsmGen simulation failed: %s' % r.error)
+    byfile = []
+    seen = set()
+    for fn in sorted(os.listdir(outdir)):
+        try:
+            rec = json.loads(open(os.path.join(outdir, fn)).readline())
+        except Exception:
+            continue
+        key = json.dumps([[o['op'], o['a'], o['b'], o['c']] for o in rec['ops']])
+        if key in seen: continue
+        seen.add(key)
+        byfile.append(rec)
+    # choose scripts so that every tag is represented, rare tags first
+    from collections import Counter
+    cnt = Counter(t for rec in byfile for t in rec['tags'])
+    chosen = []; have = Counter()
+    for tag, _ in sorted(cnt.items(), key=lambda kv: kv[1]):
+        for rec in byfile:
+            if have[tag] >= pick_per_tag: break
+            if tag in rec['tags'] and not rec.get('_c'):
+                rec['_c'] = True; chosen.append(rec)
+                for t in rec['tags']: have[t] += 1
+    stats = dict(generated=len(byfile), chosen=len(chosen), tag_counts=dict(cnt), chosen_tags=dict(have), sim_states=r.generated)
+    return chosen, stats, d
+
+
+def script_text(rec):
+    lines = []
+    for o in rec['ops']:
+        op = o['op']
+        if op == 'put': lines.append('put %d' % GEN_KEYMAP(o['a']))
+        elif op == 'del': lines.append('del %d' % GEN_KEYMAP(o['a']))
+        elif op == 'flush': lines += ['flush', 'getall']
+        elif op == 'reopen': lines += ['reopen', 'getall']
+        elif op == 'compact': lines += ['compact %d %d %d' % (o['a'], GEN_KEYMAP(o['b']), GEN_KEYMAP(o['c'])), 'getall']
+        elif op == 'snap': lines.append('snap 1')
+        elif op == 'rel': lines.append('rel 1')
+    lines += ['getall', 'scan', 'reopen', 'getall']
+    return '\n'.join(lines) + '\n'
+
+
+def gen_layer(prop, tier, seed, out, mc):
+    quick = tier == 'quick'
+    chosen, stats, d = gen_scripts(seed, 150 if quick else 2500, 8, 14, 5 if quick else 60, 120 if quick else 900)
+    if chosen is None:
+        r = stats
+        rd = c.replay_dir(prop, 'gen')
+        open(os.path.join(rd, 'tlc.out'), 'w').write(r.out)
+        out.violation('LsmGen.tla: %s violated while generating behaviours' % r.violated, rd, dict(kind='mc', violated=r.violated))
+        return
+    lib = c.build_lib(); exe = c.build_driver('seq', lib)
+    from . import p_api
+    jobs = []
+    for i, rec in enumerate(chosen):
+        sp = os.path.join(d, 's%d.txt' % i); open(sp, 'w').write(script_text(rec))
+        ex = sr.Exec(seed * 1000 + i, 0, 'mixed', bits=0); ex.script = sp; ex.tags = rec['tags']
+        jobs.append(ex)
+    c.pmap(lambda ex: sr.run_exec(exe, ex, env={'VERIF_SCRIPT': ex.script}), jobs, c.NCPU)
+    api = []; struct = []; owners = []
+    keep = p_api.PLANS[prop][0] if prop in p_api.PLANS else p_api.PLANS['C01'][0]
+    for ex in jobs:
+        if ex.rc != 0:
+            rd = c.replay_dir(prop, 'gen')
+            shutil.copy(ex.script, os.path.join(rd, 'script.txt'))
+            json.dump(dict(kind='script', prop=prop, why='driver exit %s' % ex.rc, tags=ex.tags), open(os.path.join(rd, 'replay.json'), 'w'))
+            out.violation('generated behaviour did not complete (exit %s), tags %s' % (ex.rc, ex.tags), rd, dict(kind='driver_exit'))
+            continue
+        evs = sr.load_events(ex.trace)
+        api.append([e for e in evs if keep(e)])
+        try:
+            enr, _ = le.enrich(evs, os.path.join(ex.dir, 'db.keep'))
+        except le.ProjectionError as pe:
+            raise Broken('projection failed on generated behaviour: %s' % pe)
+        struct.append(enr); owners.append(ex)
+    st = dict(stats)
+    if prop in p_api.PLANS:
+        ra = sr.validate_batches('KvTrace', 'KvTrace.cfg', api, batch_lines=8000, nproc=4)
+        st['api_states'] = sum(r['states'] for r in ra)
+        for r in ra:
+            if not r['accepted'] and not out.full():
+                ex = owners[r['exec_index']]
+                _report_gen(prop, out, ex, 'KvTrace', r, api[r['exec_index']])
+    rs = sr.validate_batches('LsmTrace', 'LsmTrace_%s.cfg' % prop, struct, batch_lines=2500, nproc=6)
+    st['struct_states'] = sum(r['states'] for r in rs)
+    st['traces'] = len(owners)
+    for r in rs:
+        if not r['accepted'] and not out.full():
+            ex = owners[r['exec_index']]
+            _report_gen(prop, out, ex, 'LsmTrace', r, struct[r['exec_index']])
+    st['states'] = st.get('api_states', 0) + st['struct_states']; st['transitions'] = st['states']
+    st['sample'] = dict(tags=chosen[0]['tags'], script=script_text(chosen[0]).split('\n')[:18]) if chosen else {}
+    mc['LsmGen'] = st
+    for ex in jobs:
+        if ex.dir: c.rmtree(ex.dir)
+    c.rmtree(d)
+
+
+def _report_gen(prop, out, ex, layer, r, evs):
+    rd = c.replay_dir(prop, 'gen')
+    shutil.copy(ex.script, os.path.join(rd, 'script.txt'))
+    idx = r['line_in_exec'] if r['line_in_exec'] is not None else 0
+    bad = evs[idx] if idx < len(evs) else None
+    slim = None if bad is None else {k: (v if k != 'ents' else '%d entries' % len(v)) for k, v in bad.items()}
+    json.dump(dict(kind='script', prop=prop, layer=layer, tags=ex.tags, violated=r['violated'], event=slim), open(os.path.join(rd, 'replay.json'), 'w'), indent=1)
+    open(os.path.join(rd, 'README'), 'w').write('Reproduce: cd /verif && ./check replay %s\nA behaviour generated from LsmGen.tla (tags %s), replayed by the seq driver, is rejected by %s: %s at %s\n' % (rd, ex.tags, layer, r['violated'], json.dumps(slim)[:600]))
+    out.violation('%s rejects a generated behaviour (tags %s): %s at %s' % (layer, ','.join(ex.tags), r['violated'] or 'no action explains', json.dumps(slim)[:240]), rd,
+                  dict(kind='gen', layer=layer, violated=r['violated']))
